@@ -54,6 +54,9 @@ func genConnConc(r *Rng, tier string, p *Plan) *Plan {
 	}
 	for c := 0; c < nclients; c++ {
 		p.Knobs[fmt.Sprintf("cdb%d", c)] = int64(r.Intn(len(connDBs)))
+		for _, op := range g.SeedOps(r, r.Range(0, 2)) {
+			p.Init = append(p.Init, Op{Kind: "cseed", C: c, Args: op.Args})
+		}
 		for j := 0; j < per; j++ {
 			var a []string
 			switch x := r.Intn(100); {
@@ -61,9 +64,9 @@ func genConnConc(r *Rng, tier string, p *Plan) *Plan {
 				a = []string{"SELECT", Pick(r, append(connDBs, "7"))}
 			case x < 40:
 				a = []string{"SWAPDB", Pick(r, connDBs), Pick(r, connDBs)}
-			case x < 48:
+			case x < 52:
 				a = []string{"FLUSHALL"}
-			case x < 54:
+			case x < 56:
 				a = []string{"FLUSHDB"}
 			case x < 60:
 				a = []string{"HELLO", Pick(r, []string{"2", "3"})}
